@@ -626,7 +626,7 @@ func TestStaging(t *testing.T) {
 	}
 	defer env.Close()
 	n := 0
-	ev.Check(t, rec, 500, 20000, func(rt *rapid.T) {
+	ev.Check(t, rec, 1500, 20000, func(rt *rapid.T) {
 		c := drawCase(rt)
 		n++
 		dir := filepath.Join(base, fmt.Sprintf("c%d", n))
